@@ -85,13 +85,21 @@ def _do_cmd(command, timeout, **kwargs):
                     (mask_pwd(command), proc.returncode, output)
                 )
             return output
-        except subprocess.TimeoutExpired as err:
-            os.killpg(os.getpgid(proc.pid), signal.SIGKILL)
-            proc.communicate()
+        except subprocess.TimeoutExpired:
+            # The TimeoutExpired text holds the unmasked command line and a
+            # traceback formatter prints the whole exception chain: nothing
+            # raised from here may be linked to it.
+            try:
+                os.killpg(os.getpgid(proc.pid), signal.SIGKILL)
+                proc.communicate()
+            except Exception:
+                # e.g. partial output that cannot be decoded
+                pass
             LOG.debug("[%s] {timed out}", kwargs.get('cwd', os.getcwd()))
             raise CommandError(
-                "Command %s timed out." % mask_pwd(command)) from err
+                "Command %s timed out." % mask_pwd(command)) from None
         except CommandError:
             raise
         except Exception as err:
-            raise CommandError(mask_pwd(str(err))) from err
+            # Same here: only the masked text may leave this function.
+            raise CommandError(mask_pwd(str(err))) from None
